@@ -185,7 +185,16 @@ def unit_jobs(rng, thorough):
         half of them from the mantissas on which binary floating-point scaling and exact scaling differ."""
     jobs = []
     k = 0
-    fixed = [([[10] * 260, [10] * 4 + [7]], None), ([[100] * 120 + [60], [100] * 2], 60), ([[1000] * 120, [1000] * 2 + [400]], 60)]
+    fixed = [([[10] * 260, [10] * 4 + [7]], 110), ([[100] * 120 + [60], [100] * 2], 50), ([[1000] * 120, [1000] * 2 + [400]], 50)]
+
+    def float_trap(v):
+        """some unit spelling of v with 2 or 3 decimals on which binary floating-point scaling is not exact"""
+        for u, scale in (("k", 10 ** 3), ("M", 10 ** 6)):
+            for dec in (2, 3):
+                s_ = humanize(v, u, dec)
+                if s_ is not None and int(float(s_[:-1]) * scale) != v:
+                    return True
+        return False
     for widths, nsample in fixed:
         blocks = blocks_from_widths(widths)
         allregs = []
@@ -193,7 +202,7 @@ def unit_jobs(rng, thorough):
             L = blk[-1][2]
             edges = sorted({0, L} | {b[1] for b in blk})
             if nsample and not thorough and len(edges) > nsample:
-                edges = sorted(rng.sample(edges, nsample))
+                edges = sorted(set(rng.sample(edges, nsample)) | {v for v in edges if float_trap(v)})
             for v in edges:
                 k += 1
                 r = unit_region(rng, k, c, blk, v, L)
